@@ -216,6 +216,14 @@ def main(chk: core.Check) -> int:
         histories(chk)
         if not chk.failing:
             first_calls(chk, thorough)
+        if not chk.failing:
+            # histories at the level of one element (a record handed out, edited by the caller, the same lookup again) and the wire position at z for
+            # z given as a Python number, a float array or an integer-typed array with negative values (both shared with C14)
+            from checks import c14
+            c14.scalar_record_histories(chk, clause="every per-element lookup returns exactly the row of the published position table, whatever the caller did with what it was handed before")
+        if not chk.failing:
+            from checks import c14
+            c14.float_arguments(chk)
     except Exception as ex:
         import traceback
         chk.obligation_broken("correspondence", "oracle run on implementation", f"{type(ex).__name__}: {ex}\n{traceback.format_exc()[-1500:]}")
